@@ -129,8 +129,15 @@ class Ctx:
                 if not any(h["key"] == key for h in self.known_hits):
                     self.known_hits.append({"key": key, "what": k.get("what", what)})
                 return
-        if len(self.violations) < 25:
-            self.violations.append({"what": what, "key": key, "replay": replay})
+        size = len(json.dumps(replay, default=str, ensure_ascii=False))
+        for v in self.violations:
+            if v["key"] == key:
+                if size < v["size"]:
+                    v.update({"what": what, "replay": replay, "size": size})
+                break
+        else:
+            if len(self.violations) < 25:
+                self.violations.append({"what": what, "key": key, "replay": replay, "size": size})
         self.count("violations", key[:60])
 
     def broke(self, kind: str, name: str, detail: str) -> None:
@@ -222,6 +229,7 @@ class Ctx:
     def driver(self, lines: Iterable[Dict[str, Any]], timeout: int = 1500) -> List[Dict[str, Any]]:
         """pipe JSON lines through the Lean model driver; one answer per line"""
         payload = "\n".join(json.dumps(l, ensure_ascii=False) for l in lines) + "\n"
+        payload = payload.encode("utf-8", "surrogatepass").decode("utf-8", "replace")
         exe = LEAN / ".lake" / "build" / "bin" / "driver"
         with _lean_lock():
             if os.environ.get("VF_DRIVER_INTERP") or not exe.exists():
@@ -229,12 +237,12 @@ class Ctx:
             else:
                 cmd = [str(exe)]
         try:
-            p = subprocess.run(cmd, cwd=LEAN, input=payload, capture_output=True, text=True, timeout=timeout)
+            p = subprocess.run(cmd, cwd=LEAN, input=payload, capture_output=True, text=True, encoding="utf-8", timeout=timeout)
         except subprocess.TimeoutExpired as e:
             raise ToolFailure("model driver timed out") from e
         if p.returncode != 0:
             raise ToolFailure("model driver failed:\n" + _tail(p.stdout + p.stderr, 40))
-        outs = [json.loads(l) for l in p.stdout.splitlines() if l.strip()]
+        outs = [json.loads(l) for l in p.stdout.split("\n") if l.strip()]
         n = payload.count("\n")
         if len(outs) != n:
             raise ToolFailure(f"model driver answered {len(outs)} lines for {n} requests\n" + _tail(p.stderr, 20))
